@@ -35,8 +35,8 @@ type c20 struct {
 	steps  []string
 	failed bool
 
-	lastRead map[string]time.Time // scope|ikid -> time of the last metastore read of that key's record by that cache scope
-	done     map[string]bool      // session|kind|rec -> the op already succeeded on that session
+	lastRead map[string]time.Time   // scope|ikid -> time of the last metastore read of that key's record by that cache scope
+	done     map[string]bool        // session|kind|rec -> the op already succeeded on that session
 	kmsSeen  map[[32]byte]time.Time // wrapped SK -> time of the last KMS unwrap by the factory under test
 	scope    string
 }
